@@ -227,7 +227,13 @@ class Run:
                                 raise BodyError()
                         finally:
                             self.exit(name, kind)
+                            # leaving may block too (the asyncio RW lock
+                            # counted readers out under a lock): a
+                            # cancellation can arrive here as well
+                            self.state[name] = 'leaving'
+                    self.state[name] = 'running'
                 except BodyError:
+                    self.state[name] = 'running'
                     self.log.append(('raised', name))
                 self.kind[name] = None
             self.state[name] = 'done'
@@ -260,7 +266,7 @@ class Run:
         if not c or self.cancelled is not None:
             return False
         t = c['task']
-        return self.state.get(t) in ('paused', 'waiting') and \
+        return self.state.get(t) in ('paused', 'waiting', 'leaving') and \
             self.step.get(t) == c['step']
 
     def _options(self, names: list[Any]) -> list[tuple[Any, ...]]:
